@@ -124,6 +124,17 @@ def gen_engine_case(rng: random.Random, kind: str) -> dict[str, Any]:
         if rng.random() < 0.25:
             sched.setdefault(str(rng.randrange(3, 16)), []).append(["user", rng.choice(["Pause", "Hold"])])
         return {"kind": "engine", "pcode": gen_pause_hold(rng), "ticks": ticks, "sched": sched, "failing": False}
+    if kind == "c12" and rng.random() < 0.1:
+        # a UOD line that executes several times in one run (an Alarm re-arms when its body is through); the user
+        # cancels / forces the item of a later invocation while it runs
+        ticks = rng.choice([40, 50])
+        body = rng.choice(["CmdB", "CmdC", "CmdD", "CmdB\n    CmdA"])
+        pcode = f"Alarm: T0 = 0\n    {body}\n" + rng.choice(["Mark: m1", "Wait: 0.5s", "CmdA"])
+        sched = {}
+        for _ in range(rng.randrange(1, 4)):
+            op = [rng.choice(["cancel", "cancel", "force"]), ["name", "Cmd", -1]]
+            sched.setdefault(str(rng.randrange(8, ticks - 8)), []).append(op)
+        return {"kind": "engine", "pcode": pcode, "ticks": ticks, "sched": sched, "failing": False}
     failing = kind == "c11" and rng.random() < 0.35
     bad_args = kind in ("c11", "c10") and rng.random() < 0.3
     pcode = gen_method(rng, failing=failing, engine_cmds=kind != "c11" or rng.random() < 0.3, bad_args=bad_args,
@@ -145,6 +156,17 @@ def gen_engine_case(rng: random.Random, kind: str) -> dict[str, Any]:
         for _ in range(rng.choice([0, 0, 0, 0, 0, 1, 1, 2])):     # commands from the user's command buttons
             at(rng.choice([t_stop + 1, rng.randrange(2, ticks - 2), rng.randrange(2, ticks - 2)]),
                ["user", rng.choice(["CmdA", "CmdB", "CmdC", "CmdD"])])
+    elif kind == "c10" and rng.random() < 0.15:
+        # a command from the user's command buttons while NO run is active (tracking is off then), carried into the
+        # next run and still running when that run is stopped / restarted
+        ticks = 40
+        t_stop = rng.randrange(3, 10)
+        at(t_stop, ["user", "Stop"])
+        t_cmd = t_stop + rng.randrange(3, 6)
+        at(t_cmd, ["user", rng.choice(["CmdL", "CmdL", "CmdC"])])
+        t_start = t_cmd + rng.randrange(0, 3)
+        at(t_start, ["user", "Start"])
+        at(t_start + rng.randrange(2, 9), ["user", rng.choice(["Stop", "Restart"])])
     elif kind == "c10":
         t_stop = rng.randrange(3, ticks - 8)
         at(t_stop, ["user", rng.choice(["Stop", "Stop", "Restart"])])
@@ -158,11 +180,16 @@ def gen_engine_case(rng: random.Random, kind: str) -> dict[str, Any]:
                ["user", rng.choice(["CmdA", "CmdB", "CmdC", "CmdD"])])
     else:  # c12: requests against every item of the run log, offered or not
         for _ in range(rng.randrange(1, 6)):
-            sel = ["item", rng.randrange(60)] if rng.random() < 0.93 else ["id", "nope"]
+            x = rng.random()
+            # (the most recent UOD item — for a line that runs several times: its latest invocation, likely running)
+            sel = ["name", "Cmd", -1] if x < 0.25 else ["item", rng.randrange(60)] if x < 0.94 else ["id", "nope"]
             at(rng.randrange(2, ticks - 8), [rng.choice(["cancel", "force"]), sel])
         if rng.random() < 0.5:
             at(rng.randrange(3, ticks - 8), ["force", ["threshold", rng.randrange(8)]])
-    return {"kind": "engine", "pcode": pcode, "ticks": ticks, "sched": sched, "failing": failing}
+    case = {"kind": "engine", "pcode": pcode, "ticks": ticks, "sched": sched, "failing": failing}
+    if kind == "c10" and rng.random() < 0.4:
+        case["stop_fault"] = True      # another listener's on_stop raises (registered before the tags / run-log consumer)
+    return case
 
 
 def engine_monitor(ctx: Check, kind: str, n: int, oracle: Callable[[dict, dict], list[tuple[str, str]]]) -> None:
